@@ -166,10 +166,18 @@ class AxolotlManager(object):
         cipher = self._get_session_cipher(recipient_id)
         return cipher.encrypt(message + self._generate_random_padding(len(message)))
 
+    def _parse_ciphertext(self, message_class, data):
+        # an envelope damaged in transit may fail in many ways while being parsed,
+        # it is as undecryptable as one with a bad mac and has to lead to a retry request as well
+        try:
+            return message_class(serialized=data)
+        except Exception as e:
+            raise InvalidMessageException(e)
+
     def decrypt_pkmsg(self, senderid, data, unpad):
         logger.debug("decrypt_pkmsg(senderid=%s, data=(omitted), unpad=%s)" % (senderid, unpad))
-        pkmsg = PreKeyWhisperMessage(serialized=data)
         try:
+            pkmsg = self._parse_ciphertext(PreKeyWhisperMessage, data)
             plaintext = self._get_session_cipher(senderid).decryptPkmsg(pkmsg)
             return self._unpad(plaintext) if unpad else plaintext
         except NoSessionException:
@@ -184,8 +192,8 @@ class AxolotlManager(object):
 
     def decrypt_msg(self, senderid, data, unpad):
         logger.debug("decrypt_msg(senderid=%s, data=[omitted], unpad=%s)" % (senderid, unpad))
-        msg = WhisperMessage(serialized=data)
         try:
+            msg = self._parse_ciphertext(WhisperMessage, data)
             plaintext = self._get_session_cipher(senderid).decryptMsg(msg)
 
             return self._unpad(plaintext) if unpad else plaintext
